@@ -652,3 +652,23 @@ Lemma bleu_zero_weight_witness :
   bleu_gamma c (bleu_beta c b) = xq_val NaN /\
   xr_val (bleu_of_stats c (bleu_beta c b)) = xq_val NaN.
 Proof. vm_compute. repeat split; reflexivity. Qed.
+
+(* the three textbook equations determine the distance: any function satisfying them is what the
+   DP computes *)
+Lemma levenshtein_unique (f : sent -> sent -> nat) :
+  (forall b, f [] b = List.length b) ->
+  (forall a, f a [] = List.length a) ->
+  (forall a x b y, f (a ++ [x]) (b ++ [y]) =
+     Nat.min (f a (b ++ [y]) + 1) (Nat.min (f (a ++ [x]) b + 1) (f a b + if Z.eqb x y then 0 else 1))) ->
+  forall a b, f a b = edit_distance a b.
+Proof.
+  intros H0l H0r Hs.
+  assert (H : forall ra rb, f (rev ra) (rev rb) = lev_std Z Z.eqb ra rb).
+  { induction ra as [|x ra IHa]; intros rb.
+    - cbn [rev]. rewrite H0l, rev_length. reflexivity.
+    - induction rb as [|y rb IHb].
+      + cbn [rev] in *. rewrite H0r, lev_std_nil_r, app_length, rev_length. cbn [List.length]. lia.
+      + rewrite lev_std_cons, <- IHb, <- !IHa. cbn [rev]. rewrite Hs. lia. }
+  intros a b. rewrite edit_distance_levenshtein. unfold levenshtein.
+  rewrite <- H, !rev_involutive. reflexivity.
+Qed.
